@@ -165,8 +165,10 @@ pub struct Reply { pub id: u64, pub result: Result<SubMsgResponse, Str> }
 
 /// opaque stand-in for `Binary` / serialized payloads
 pub struct Binary { pub tag: Ghost<int> }
+/// the serialized form of a value, as an uninterpreted function of the value (serde_json is deterministic: ASSUMED)
+pub uninterp spec fn json_of<T>(x: T) -> Binary;
 #[verifier::external_body]
-pub fn to_json_binary<T>(x: &T) -> (r: Result<Binary, StdError>) { unimplemented!() }
+pub fn to_json_binary<T>(x: &T) -> (r: Result<Binary, StdError>) ensures r is Ok ==> r->Ok_0 == json_of(*x) { unimplemented!() }
 
 pub struct Attribute { pub tag: Ghost<int> }
 #[verifier::external_body]
@@ -244,6 +246,11 @@ pub mod cw_ownable {
     pub fn is_owner(s: &Storage, addr: &Addr) -> (r: Result<bool, StdError>)
         ensures match r { Ok(b) => b == (s.owner@ == Some(addr@)), Err(_) => true }
     { unimplemented!() }
+
+    /// `cw_ownable::get_ownership`: a read of the ownership item (its content is not modelled beyond being a read)
+    pub struct Ownership { pub tag: Ghost<int> }
+    #[verifier::external_body]
+    pub fn get_ownership(s: &Storage) -> (r: Result<Ownership, StdError>) { unimplemented!() }
 
     /// The ownership state machine of cw-ownable 2.0 (`update_ownership`), by its source:
     /// transfer: only the owner; sets pending; accept: only the pending owner, not expired;
